@@ -303,6 +303,15 @@ def samples(seed, n, k):
 # collide if compared as numbers), ids that differ in case only, ids that contain the default file suffix
 # or an option-like prefix.  The tools' documented formats only forbid white space inside an id.
 ID_ALPHABET = ("10", "1", "01", "1.0", "1e1", "a", "A", "a.pt", "p_a", "a_b-c", "ab", "b", "-1")
+# id sets of the manifest lattice (torch tool, --manifest): ids that are not fixed-width (one is a
+# prefix / substring of another), ids that are equal as numbers, ids that differ in case or contain the
+# default file suffix
+MANIFEST_ID_SETS = {
+    "width": ["utt10", "utt1", "utt11", "utt2"],
+    "substr": ["1_a", "1", "11_a", "a"],
+    "numeric": ["1", "01", "1.0", "10"],
+    "affix": ["a", "A", "a.pt", "x-a"],
+}
 EDGE_LENGTHS = (124, 125, 126)     # 125 samples at 1000 Hz = 0.125 s, exact in float32 and float64
 
 
@@ -328,6 +337,12 @@ def utterances(setname, comp_name, seed, tool=None):
                 continue
             out.append(("n%02d" % n, samples(seed, n, 50 + n), RATE, "normal" if n >= L else "short"))
         return out
+    if setname.startswith("m:"):
+        # ids of a manifest lattice, in map order or reversed
+        _, idset, order = setname.split(":")
+        ids = list(MANIFEST_ID_SETS[idset])
+        return [(u, samples(seed, 2 * L + 1 + k, 60 + k), RATE, "normal")
+                for k, u in (enumerate(ids) if order == "fwd" else reversed(list(enumerate(ids))))]
     if setname in ("mono", "mindur", "rate"):
         u = [("ua", samples(seed, 3 * L + 5, 0), RATE, "normal"),
              ("ub", samples(seed, 2 * L + 2, 1), RATE, "normal"),
@@ -497,6 +512,9 @@ def run_case(case, seed, keep=None):
     min_dur = None if min_dur_text is None else float(min_dur_text)
     naming = case.get("naming")
     prefix, suffix = (naming[0], naming[1]) if naming is not None else ("", ".pt")
+    manifest = case.get("manifest")          # torch tool: ids already listed (in line order), or None
+    if manifest is not None and tool != "torch":
+        raise core.HarnessError("--manifest is an option of the torch tool")
     if min_dur:
         for _u, x, rate, _n in utts:
             dur = x.shape[-1] / float(rate)
@@ -512,6 +530,10 @@ def run_case(case, seed, keep=None):
     expect, before, excluded, dropped = {}, {}, set(), 0
     kept = []
     for u, x, rate, note in utts:
+        if manifest is not None and u in manifest:
+            excluded.add(u)
+            kept.append((u, x, rate, note))
+            continue
         if tool == "kaldi" and rate != RATE:
             excluded.add(u)
             kept.append((u, x, rate, note))
@@ -612,6 +634,11 @@ def run_case(case, seed, keep=None):
             out_dir = os.path.join(d, "out")
             if naming is not None:
                 opts += ["--file-prefix=" + prefix, "--file-suffix=" + suffix]
+            if manifest is not None:
+                mpath = os.path.join(d, "manifest")
+                with open(mpath, "w") as f:
+                    f.write("".join(u + "\n" for u in manifest))
+                opts += ["--manifest", mpath]
             args = [os.path.join(d, "map")] + cargs + [out_dir] + opts
         r = call_tool(tool, args)
         case_out = dict(case)
@@ -659,16 +686,24 @@ def run_case(case, seed, keep=None):
         if len(ids) != len(set(ids)):
             viol.append(core.violation(dict(tool=tool, what="extra_id", dup=True),
                                        "ids written more than once: %r" % ids, case_out))
+        mtags = {}
         for u in sorted(set(expect) - set(ids)):
+            if manifest is not None:
+                mtags = dict(manifest_nonempty=bool(manifest),
+                             related_to_listed_id=any(u in v or v in u for v in manifest))
             viol.append(core.violation(
-                dict(tool=tool, what="missing_id"),
-                "utterance %s is not excluded by any option but is absent from the output (ids %r, rc %r)"
-                % (u, ids, rc), case_out))
+                dict(mtags, tool=tool, what="missing_id"),
+                "utterance %s is not excluded by any option%s but is absent from the output (ids %r, rc %r)"
+                % (u, "" if manifest is None else " nor listed in the manifest %r" % (manifest,), ids, rc),
+                case_out))
         for u in sorted(set(ids) - set(expect)):
+            listed = manifest is not None and u in manifest
             viol.append(core.violation(
-                dict(tool=tool, what="extra_id", dup=False),
+                dict(tool=tool, what="extra_id", dup=False, **(dict(listed_in_manifest=True) if listed else {})),
                 "output holds %s, which is %s" % (
-                    u, "excluded (rate / duration / channel)" if u in excluded else "not an input id"),
+                    u, "listed in the manifest %r (already computed: must not be computed again)" % (manifest,)
+                    if listed else "excluded (rate / duration / channel)" if u in excluded
+                    else "not an input id"),
                 case_out))
         if case.get("dither") is None:
             for u in sorted(set(expect) & set(stored)):
@@ -823,6 +858,36 @@ def _options(pt, seed):
                        obs=sorted(obs) + [len(r["stored"])], skipped=r["skipped"], sample=case)
 
 
+# ------------------------------------------------------------------ sub-check: manifest (torch tool)
+
+def _manifest(pt, seed):
+    """pt = (computer, container, id set, map order, naming); inner: EVERY subset of the ids already
+    listed in the manifest x {lines in map order, reversed}: exactly the unlisted ids are stored, each
+    equal to the reference pipeline"""
+    comp_name, container, idset, order, naming = pt
+    setname = "m:%s:%s" % (idset, order)
+    ids = [u for u, _, _, _ in utterances(setname, comp_name, seed, "torch")]
+    viol, obs, evals, nontriv, skipped = [], set(), 0, 0, 0
+    for mask in range(2 ** len(ids)):
+        listed = [u for i, u in enumerate(ids) if mask >> i & 1]
+        for rev in ((False, True) if len(listed) > 1 else (False,)):
+            case = dict(tool="torch", computer=comp_name, pre="none", post="none", container=container,
+                        set=setname, syntax="inline", manifest=listed[::-1] if rev else listed)
+            if NAMINGS[naming] is not None:
+                case["naming"] = NAMINGS[naming]
+            r, o = _single(case, seed)
+            viol += r["viol"]
+            evals += 1
+            nontriv += int(0 < len(listed) < len(ids))
+            skipped += r["skipped"]
+            obs.add((len(listed), len(r["stored"])))
+    return core.result(viol, evals=evals, nontrivial_count=nontriv, obs=[idset, order, naming] + sorted(obs),
+                       skipped=skipped,
+                       sample=dict(computer=comp_name, container=container, ids=ids, naming=NAMINGS[naming],
+                                   inner="every subset of the ids listed in the manifest x {map order, "
+                                         "reversed} of its lines"))
+
+
 # ------------------------------------------------------------------ sub-check: seed / dither
 
 DITHERS = {
@@ -878,9 +943,223 @@ def _seed_replay(case, seed):
     return _seed_case(pt, seed)
 
 
+# ------------------------------------------------------------------ sub-check: seed, separate interpreters
+
+# str-hash salt of the interpreters that run the tool.  ./check itself runs with PYTHONHASHSEED=0 and a
+# child inherits it, which hides any dependence on hash() / set order of strings; a user's interpreters
+# are salted at random.  Three fixed, different salts make the verdict (and the replay) deterministic;
+# the unset one is what a user has.
+HASH_SALTS = ("0", "1", "2", None)
+PROC_PRES = dict(DITHERS, none=[])
+
+
+def _proc_jobs(tool, comp_name):
+    """the job lattice of one interpreter: pre-processors x post x --seed value"""
+    return [(pn, post, sv) for pn in PROC_PRES for post in ("none", "deltas_stack") for sv in SEED_VALUES]
+
+
+def _seed_processes(pt, seed, only_job=None):
+    """pt = (tool, computer).  One fresh interpreter per salt in HASH_SALTS runs the whole job lattice
+    (the tools' entry functions, one call after the other, global generators dirtied differently per
+    interpreter and job); for every job the bytes written must be identical in all interpreters."""
+    import threading
+
+    from .. import crash
+
+    tool, comp_name = pt
+    jobs = _proc_jobs(tool, comp_name)
+    utts = utterances("ids", comp_name, seed, tool)
+    d = tempfile.mkdtemp(prefix="verif-")
+    viol = []
+    try:
+        ind = os.path.join(d, "in")
+        os.makedirs(ind)
+        if tool == "kaldi":
+            with open(os.path.join(d, "wav.scp"), "w") as f:
+                for u, x, rate, _ in utts:
+                    p = os.path.join(ind, u + ".wav")
+                    write_wav(p, x, rate)
+                    f.write("%s %s\n" % (u, p))
+            src = "scp:" + os.path.join(d, "wav.scp")
+        else:
+            paths = write_inputs(ind, "npy", utts)
+            with open(os.path.join(d, "map"), "w") as f:
+                f.write("".join("%s %s\n" % (u, p) for u, p in paths))
+            src = os.path.join(d, "map")
+        cjson = [] if comp_name == "none" else [json.dumps(computer_json(comp_name))]
+
+        def out_of(k, j):
+            return os.path.join(d, "out", "salt%d" % k, "job%03d" % j)
+
+        batches = []
+        for k, _salt in enumerate(HASH_SALTS):
+            batch = []
+            for j, (pn, post, sv) in enumerate(jobs):
+                os.makedirs(os.path.dirname(out_of(k, j)), exist_ok=True)
+                opts = ["--seed", str(sv)]
+                if PROC_PRES[pn]:
+                    opts += ["--preprocess", json.dumps(PROC_PRES[pn])]
+                if POSTS[post]:
+                    opts += ["--postprocess", json.dumps(post_json(POSTS[post]))]
+                if tool == "kaldi":
+                    args = [src, "ark:" + out_of(k, j)] + cjson + opts
+                else:
+                    args = [src] + cjson + [out_of(k, j)] + opts
+                batch.append(dict(tool=tool, args=args))
+            batches.append(batch)
+        res = [None] * len(HASH_SALTS)
+
+        def one(k):
+            res[k] = crash.tool_batch(batches[k], HASH_SALTS[k], salt=k + 1)
+
+        ts = [threading.Thread(target=one, args=(k,)) for k in range(len(HASH_SALTS))]
+        for t in ts:
+            t.start()
+        for t in ts:
+            t.join()
+        for k, rr in enumerate(res):
+            if rr is None or rr[1] is None or len(rr[1]) != len(jobs):
+                raise core.HarnessError("interpreter with PYTHONHASHSEED=%r did not finish its batch: %r" % (
+                    HASH_SALTS[k], None if rr is None else (rr[0]["rc"], rr[0]["err"][-400:])))
+
+        def content(k, j):
+            p = out_of(k, j)
+            if os.path.isdir(p):
+                return [(nm, open(os.path.join(p, nm), "rb").read()) for nm in sorted(os.listdir(p))]
+            if os.path.exists(p):
+                return open(p, "rb").read()
+            return None
+
+        by_seed, nontriv, obs = {}, 0, set()
+        for j, (pn, post, sv) in enumerate(jobs):
+            if only_job is not None and j != only_job:
+                continue
+            case = dict(kind="seed_processes", tool=tool, computer=comp_name, job=j,
+                        pre=PROC_PRES[pn], post=post, seed_value=sv)
+            outs = [content(k, j) for k in range(len(HASH_SALTS))]
+            status = [res[k][1][j] for k in range(len(HASH_SALTS))]
+            bad = [k for k in range(len(HASH_SALTS)) if status[k] not in (["ok", 0], ["ok", None])
+                   or not outs[k]]
+            if bad:
+                viol.append(core.violation(
+                    dict(tool=tool, what="exception", in_separate_interpreter=True,
+                         outcome=str(status[bad[0]][:2])),
+                    "interpreter with PYTHONHASHSEED=%r: %s tool with %r ended with %r" % (
+                        HASH_SALTS[bad[0]], tool, batches[bad[0]][j]["args"][2:], status[bad[0]]), case))
+                continue
+            differ = [k for k in range(1, len(HASH_SALTS)) if outs[k] != outs[0]]
+            if differ:
+                fixed = [k for k in differ if HASH_SALTS[k] is not None]
+                viol.append(core.violation(
+                    dict(tool=tool, what="seed_not_reproducible", across="interpreters", dither=bool(PROC_PRES[pn]),
+                         seed_is_zero=(sv == 0), only_random_salt=not fixed),
+                    "--seed %d, --preprocess %r, --postprocess %s: the bytes written by separate interpreters "
+                    "differ (same command, same inputs; str-hash salt PYTHONHASHSEED=%r vs %r)" % (
+                        sv, PROC_PRES[pn], post, HASH_SALTS[0], [HASH_SALTS[k] for k in differ]), case))
+            by_seed.setdefault((pn, post), []).append(outs[0])
+            obs.add((pn, bool(differ)))
+        for (pn, post), lst in by_seed.items():
+            distinct = sum(1 for i, a in enumerate(lst) if all(a != b for b in lst[:i]))
+            if PROC_PRES[pn] and distinct == len(lst):
+                nontriv += len(lst)                  # the seed is observable: every value gives other bytes
+        return core.result(viol, evals=len(jobs) * len(HASH_SALTS) if only_job is None else len(HASH_SALTS),
+                           nontrivial_count=nontriv * len(HASH_SALTS), obs=[tool, comp_name] + sorted(map(str, obs)),
+                           impl_calls=len(HASH_SALTS),
+                           sample=dict(tool=tool, computer=comp_name, salts=list(HASH_SALTS),
+                                       jobs="pre %r x post x --seed %r" % (list(PROC_PRES), list(SEED_VALUES))))
+    finally:
+        shutil.rmtree(d, ignore_errors=True)
+
+
+def _seed_processes_replay(case, seed):
+    # the whole batch is run again (the same call sequence in every interpreter); only the job of the
+    # case is judged
+    return _seed_processes((case["tool"], case["computer"]), seed, only_job=case["job"])
+
+
+# ------------------------------------------------------------------ sub-check: tool runs in one interpreter
+
+HIST_COMPS = ("stft_fbank", "stft_gabor_e", "si_gabor")
+HIST_DEPTH = {"quick": 2, "thorough": 3}
+
+
+def _hist_calls():
+    """alphabet of tool runs: tool x computer x pre {none, preemph} x post {none, [deltas, stack]} on the
+    'mono' utterance set (validity: the kaldi tool needs a computer)"""
+    out = []
+    for tool in ("torch", "kaldi"):
+        for cn in (("none",) if tool == "torch" else ()) + HIST_COMPS:
+            for pre, post in itertools.product(("none", "preemph"), ("none", "deltas_stack")):
+                out.append(dict(tool=tool, computer=cn, pre=pre, post=post,
+                                container="npy" if tool == "torch" else "scp", set="mono", syntax="inline"))
+    return out
+
+
+def _hist_seqs(depth, first):
+    calls = _hist_calls()
+    return [[calls[first]] + [calls[k] for k in rest]
+            for n in range(depth) for rest in itertools.product(range(len(calls)), repeat=n)]
+
+
+def _hist_child(seed):
+    """-> child(seq) for mc.crash.explore_histories.  The parent imports and never calls the library."""
+    from pydrobert.kaldi.io import open as kaldi_open  # noqa: F401
+    from pydrobert.speech import command_line, compute, post, pre, util  # noqa: F401
+
+    _torch()
+
+    def child(seq):
+        viol, obs = [], []
+        for j, case in enumerate(seq):
+            r = run_case(dict(case), seed)
+            for v in r["viol"]:
+                viol.append([dict(v["tags"], in_history=True, first_call=(j == 0)),
+                             "run %d of %d in one interpreter (%s): %s" % (
+                                 j + 1, len(seq), "; ".join("%s %s pre=%s post=%s" % (
+                                     c["tool"], c["computer"], c["pre"], c["post"]) for c in seq), v["detail"])])
+            o = r["obs"]
+            obs.append("|".join(o) if isinstance(o, list) else str(o))
+        return dict(viol=viol, obs=obs)
+
+    return child
+
+
+def _histories(pt, seed):
+    """pt = (depth, index of the first run): every sequence of 1..depth tool runs that starts with that
+    run, one after the other in one forked child (see mc.crash.explore_histories)"""
+    from .. import crash
+
+    depth, first = pt
+    seqs = _hist_seqs(depth, first)
+    viol, results, forks = crash.explore_histories(seqs, _hist_child(seed), dict(depth=depth, first=first))
+    obs = sorted(set(o for r in results for o in r["obs"]))
+    return core.result(viol, evals=sum(len(q) for q in seqs), nontrivial_count=sum(len(q) for q in seqs if len(q) > 1),
+                       obs=[seqs[0][0]["tool"], seqs[0][0]["computer"]] + obs, impl_calls=forks,
+                       sample=dict(first_run=seqs[0][0], depth=depth,
+                                   inner="every continuation of 0..%d further runs" % (depth - 1)))
+
+
+def _histories_replay(case, seed):
+    from .. import crash
+
+    return core.result(crash.replay_history(case, lambda c: _hist_seqs(c["depth"], c["first"]),
+                                            _hist_child(seed)))
+
+
 # ------------------------------------------------------------------
 
+def _preimport():
+    """import (never call) everything a tool run needs BEFORE the worker pools are forked: every worker
+    and every history child inherits the modules instead of importing them again"""
+    from pydrobert.kaldi.io import open as kaldi_open  # noqa: F401
+    from pydrobert.speech import command_line, compute, post, pre, util  # noqa: F401
+
+    import h5py  # noqa: F401
+    _torch()
+
+
 def subchecks(tier, seed, only=None):
+    _preimport()
     quick = tier == "quick"
     comps = ["stft_fbank", "stft_gabor_e", "si_gabor"]
     pres = ["none", "preemph", "preemph2"]
@@ -921,6 +1200,13 @@ def subchecks(tier, seed, only=None):
     for comp_name, cont, setname, el, md in itertools.product(
             ocomps[1:], KALDI_CONTAINERS, ("mono", "ids", "ch0", "ch1", "edge"), (False, True), MIN_DURS):
         opts_.append(("kaldi", comp_name, cont, setname, el, md))
+    # manifest lattice (torch tool)
+    mconts = ("npy", "npz") if quick else TORCH_CONTAINERS      # listed by path / by key = utterance id
+    mnames = ("default", "both") if quick else tuple(NAMINGS)
+    mpts = [(cn, cont, idset, order, nm) for cn, cont, idset, order, nm in itertools.product(
+        ocomps, mconts, MANIFEST_ID_SETS, ("fwd", "rev"), mnames)]
+    # separate interpreters
+    ppts = [("torch", cn) for cn in ["none"] + comps] + [("kaldi", cn) for cn in comps]
     axes = dict(
         tool=["torch", "kaldi"], computer=["none (torch tool only)"] + comps,
         computer_configs={k: COMPUTERS[k] for k in comps},
@@ -936,7 +1222,23 @@ def subchecks(tier, seed, only=None):
         validity="preemph_abs/abs_preemph only for the kaldi tool (the torch tool supports only the two "
                  "built-in pre-processors); multi-channel sets only for array containers (torch tool); "
                  "utterances whose reference pipeline raises are left out of the input (skipped)")
+    hpts = [(HIST_DEPTH[tier_], i) for i in range(len(_hist_calls()))]
     return [
+        # first in the list: its children must start from the state "just imported" also when every
+        # sub-check runs in one process (VERIF_NPROC=1)
+        core.SubCheck(
+            "histories", hpts, lambda p: _histories(p, seed),
+            "tool runs in ONE interpreter: every sequence of 1..%d runs over the alphabet tool x computer "
+            "{none (torch tool), stft/fbank, stft/gabor+energy, si/gabor} x pre {none, preemph} x post "
+            "{none, [deltas, stack]} (%d runs; utterance set 'mono'), the sequences of a point one after "
+            "the other in one forked child (state at its start: 'just imported'), the first violation of "
+            "every signature confirmed by running its sequence alone in a fresh child: every run stores "
+            "exactly the expected ids, each allclose to the reference pipeline, whatever ran before it in "
+            "the same interpreter; non-trivial = a run that is not the first of its sequence" % (
+                HIST_DEPTH[tier_], len(_hist_calls())),
+            axes=dict(tool=["torch", "kaldi"], computer=["none (torch tool)"] + list(HIST_COMPS),
+                      pre=["none", "preemph"], post=["none", "deltas_stack"], depth=HIST_DEPTH[tier_]),
+            replay=lambda case: _histories_replay(case, seed), kind="histories"),
         core.SubCheck(
             "pipeline", pts, lambda p: _pipeline(p, seed),
             "tool x computer x pre x post x container; inner: utterance set x {inline JSON, JSON file, "
@@ -950,6 +1252,29 @@ def subchecks(tier, seed, only=None):
             "JSON/YAML files => identical bytes; non-trivial = --seed 8 changes the bytes",
             axes=dict(dither=DITHERS, post=["none", "deltas_stack"], seed_values=list(SEED_VALUES)),
             replay=lambda case: _seed_replay(case, seed)),
+        core.SubCheck(
+            "seed_processes", ppts, lambda p: _seed_processes(p, seed),
+            "tool x computer; per point one FRESH INTERPRETER per str-hash salt PYTHONHASHSEED in {0, 1, 2, "
+            "unset = random, as a user has it} runs the whole job lattice pre-processors {none, dither, "
+            "[dither, preemph], [preemph, dither 0.5]} x post {none, [deltas, stack]} x --seed {0, 1, 7, "
+            "2**31-1} on 13 utterances (the tools' entry functions, one call after the other; global numpy / "
+            "torch generators in a different state in every interpreter and job): for every job the bytes "
+            "written are identical in all four interpreters; non-trivial = a dither job whose four seed "
+            "values give four different outputs",
+            axes=dict(salts=list(HASH_SALTS), pre=PROC_PRES, post=["none", "deltas_stack"],
+                      seed_values=list(SEED_VALUES), ids=list(ID_ALPHABET)),
+            replay=lambda case: _seed_processes_replay(case, seed), kind="real_runs", chunk=1),
+        core.SubCheck(
+            "manifest", mpts, lambda p: _manifest(p, seed),
+            "torch tool with --manifest: computer x container x id set (ids that are prefixes / substrings "
+            "of one another, equal as numbers, differ in case only) x map order {given, reversed} x file "
+            "naming; inner: EVERY subset of the ids already listed in the manifest x {lines in map order, "
+            "reversed}: exactly the unlisted ids are stored (as <prefix><id><suffix>), each allclose to the "
+            "reference pipeline; non-trivial = the manifest is neither empty nor complete",
+            axes=dict(id_sets=MANIFEST_ID_SETS, map_order=["fwd", "rev"], containers=list(mconts),
+                      naming={k: NAMINGS[k] for k in mnames}, computers=ocomps,
+                      manifest="all 16 subsets x line order {map order, reversed}"),
+            replay=lambda case: _case_replay(case, seed)),
         core.SubCheck(
             "framing", fpts, lambda p: _framing(p, seed),
             "tool x {causal, centered, centered+kaldi_shift} x frame length {even, odd} x frame shift "
